@@ -225,7 +225,12 @@ func hC10Req() {
 		if compressed {
 			fl = 1
 		}
-		p.body.data = appendFrame(nil, fl, wire)
+		var lead []byte
+		if verifTier() == 1 && cfg.kind != fkUnary && verifChoose("leadingMessage", 2) == 1 {
+			// thorough: the message at the limit is the second of the stream, after a small valid one
+			lead = appendFrame(nil, 0, []byte{'k'})
+		}
+		p.body.data = appendFrame(lead, fl, wire)
 	} else {
 		p.body.data = wire
 		if verifChoose("declared", 2) == 1 {
